@@ -88,6 +88,12 @@ func Replay(name string, dump io.Reader, workers int, out io.Writer) (int, error
 	if workers <= 0 {
 		workers = runtime.NumCPU()
 	}
+	// VERIF_MARK: the case being executed is written to this file first, one worker, so that the case
+	// during which the process dies (a fatal error of the Go runtime cannot be recovered) is known
+	markFile := os.Getenv("VERIF_MARK")
+	if markFile != "" {
+		workers = 1
+	}
 	rep := Report{Family: name, Mismatches: []Mismatch{}, Samples: []string{}, BySite: map[string]int{}, BySub: map[string]int{}}
 	var mu sync.Mutex
 	type job struct{ vars map[string]any }
@@ -110,6 +116,9 @@ func Replay(name string, dump io.Reader, workers int, out io.Writer) (int, error
 			f := mk()
 			for j := range jobs {
 				v := j.vars
+				if markFile != "" {
+					os.WriteFile(markFile, []byte(FormatState(v)), 0o644)
+				}
 				sl.vars.Store(&v)
 				sl.start.Store(time.Now().UnixNano())
 				r := f.Check(j.vars)
